@@ -186,7 +186,7 @@ func c14Search() {
 			distinct.add(hash64(o.history...))
 		}
 		if len(sum.Samples) < 2 && o.obsApplied >= 3 && len(o.history) < 40 {
-			sum.Samples = append(sum.Samples, map[string]interface{}{"seed": runSeed, "history": o.history})
+			sum.Samples = append(sum.Samples, map[string]interface{}{"seed": fmt.Sprint(runSeed), "history": o.history})
 		}
 		if *flagSelf {
 			emit(outRec{T: "event", Seed: runSeed, Detail: fmt.Sprintf("idx=%d trace=%016x hist=%016x class=%s", idx, o.stats.TraceHash, hash64(o.history...), o.class)})
